@@ -1042,7 +1042,41 @@ def rule_gather(ctx):
     return res.finish(1)
 
 
+def rule_rowindex(ctx):
+    """An index that `enumerate()` hands out after a `filter` (skip, step_by, rev, ..) counts the rows that were kept.  Used
+    to index a container that belongs to the *input* (the old weights, the records) it picks the value of another sample:
+    the k-th kept row gets the weight of the k-th original row."""
+    from . import rowindex
+    from .layout import with_parents
+    res = RuleResult("R-C02-rowindex", "in the dataset code no container of the input is indexed with an enumerate() index taken after a filter / skip / step_by / rev of the sample sequence")
+    F = ctx.facts()
+    n = 0
+    for fn in F.all_fns():
+        d = fn["d"]
+        if d["krate"] != "linfa" or not fn_file(fn).startswith("src/dataset/") or fn.get("exp") or "tests" in d["path"]:
+            continue
+        srcs = rowindex.enumerate_sources(fn)
+        if not srcs:
+            continue
+        c = fn["crate"]
+        key = fn_key(fn)
+        for loc, adaptors in sorted(srcs.items()):
+            bad = [a for a in adaptors if a in rowindex.REINDEXING]
+            uses = [y for y in walk(fn["body"]) if y.get("k") == "Index" and peel_refs(y["i"]).get("k") == "Path" and peel_refs(y["i"]).get("local") == loc]
+            if not uses:
+                continue
+            n += 1
+            res.instance("%s : %d container(s) indexed with an enumerate() index (adaptors before it: %s)" % (key, len(uses), ", ".join(adaptors) or "none"))
+            if bad:
+                res.violate("%s : index-after-%s" % (key, bad[0]), "`%s` is indexed with the position that enumerate() counts after `%s`: that is the position among the rows that were kept, not the row of the input the value belongs to" % (Render(c).e(uses[0])[:40], bad[0]), fn_loc(fn, uses[0].get("ln")))
+            else:
+                res.ok()
+    if n < 1:
+        res.missing_anchor("dataset functions that index a container with an enumerate() index")
+    return res.finish(1)
+
+
 def rules(tier):
     from . import iteroverride, intnarrow
     return [intnarrow.make_rule("R-C02-narrow", lambda f: f["d"]["krate"] == "linfa" and "dataset" in fn_file(f), "the dataset code of the linfa crate"),
-            iteroverride.make_rule("R-C02-iter", {"linfa"}, 3, "the linfa crate (sample, feature / target and chunk iterators of a dataset)"), rule_align, rule_filter, rule_weightsplit, rule_gather, rule_columns, rule_layout, rule_domain, rule_memorder, rule_extent, rule_search, rule_counted, rule_unit]
+            iteroverride.make_rule("R-C02-iter", {"linfa"}, 3, "the linfa crate (sample, feature / target and chunk iterators of a dataset)"), rule_align, rule_filter, rule_rowindex, rule_weightsplit, rule_gather, rule_columns, rule_layout, rule_domain, rule_memorder, rule_extent, rule_search, rule_counted, rule_unit]
